@@ -21,6 +21,9 @@
 #include <string>
 #include <thread>
 #include <vector>
+#include <unistd.h>
+#include <sys/wait.h>
+#include <new>
 
 #define private public
 #define protected public
@@ -32,6 +35,26 @@
 #undef protected
 
 typedef TranspositionTable::TTEntry TTEntry;
+
+// ---- deterministic allocation-failure injection ----
+// The table is allocated by AlignedAllocator -> malloc (LargePageAlloc returns null unless
+// USE_LARGE_PAGES).  While armed (only around reSize calls) every malloc request of at least
+// g_failBytes fails, so reSize throws std::bad_alloc exactly for tables of >= thr entries.
+#include <cerrno>
+extern "C" void* __libc_malloc(size_t);
+static volatile bool g_armed = false;
+static volatile size_t g_failBytes = 0;
+extern "C" void* malloc(size_t n) {
+    if (g_armed && g_failBytes != 0 && n >= g_failBytes) { errno = ENOMEM; return nullptr; }
+    return __libc_malloc(n);
+}
+static int guardedReSize(TranspositionTable& tt, U64 n) {
+    int exc = 0;
+    g_armed = true;
+    try { tt.reSize(n); } catch (const std::bad_alloc&) { exc = 1; }
+    g_armed = false;
+    return exc;
+}
 
 static long long rdS(std::istream& is) {
     std::string t; is >> t;
@@ -55,7 +78,7 @@ static std::string stateLine(TranspositionTable& tt) {
     std::ostringstream os;
     os << "S " << hx(tt.tableSize) << ' ' << hx(tt.usedSize) << ' ' << hs(tt.usedSizeTopBits) << ' '
        << hs(tt.usedSizeShift) << ' ' << hx(tt.usedSizeMask) << ' ' << hx(tt.generation) << ' '
-       << hx(tt.contemptHash) << ' ' << (tt.tbGen ? 1 : 0);
+       << hx(tt.contemptHash) << ' ' << (tt.tbGen ? 1 : 0) << ' ' << (tt.table ? 1 : 0);
     return os.str();
 }
 
@@ -169,8 +192,40 @@ static int session() {
         if (c == "L") { std::cout << leaf(is) << '\n'; continue; }
         if (c == "NEW") { U64 n = rdU(is); tt.reset(); tt.reset(new TranspositionTable(n)); std::cout << stateLine(*tt) << '\n'; continue; }
         if (!tt) { std::cout << "ERR no table\n"; continue; }
-        if (c == "RESIZE") { tt->reSize(rdU(is)); std::cout << stateLine(*tt) << '\n'; }
-        else if (c == "CLEAR") { tt->clear(); std::cout << stateLine(*tt) << '\n'; }
+        if (c == "ALLOCFAIL") { U64 thr = rdU(is); g_failBytes = thr ? thr * 16 + 72 : 0; std::cout << "A " << hx(thr) << '\n'; continue; }
+        if (c == "RESIZE") { int x = guardedReSize(*tt, rdU(is)); std::cout << stateLine(*tt) << " x=" << x << '\n'; continue; }
+        if (c == "SETUPTT") {
+            // the loop of EngineMainThread::setupTT (app/texel/enginecontrol.cpp)
+            U64 nEntries = rdU(is); int x = 0;
+            while (true) {
+                if (nEntries < 1) break;
+                if (guardedReSize(*tt, nEntries) == 0) break;
+                x++; nEntries /= 2;
+            }
+            std::cout << stateLine(*tt) << " x=" << x << '\n'; continue;
+        }
+        if (!tt->table && (c == "CLEAR" || c == "TBON" || c == "TBOFF" || c == "INS" || c == "PROBE" || c == "BUSY" ||
+                           c == "PUTB" || c == "GETB" || c == "TBW" || c == "TBR" || c == "TBSUM")) {
+            // `table` is a null pointer: the operation would index off nullptr.  Run insert/probe in a
+            // child process to show what happens, and report instead of crashing the harness.
+            std::string sig = "-";
+            if (c == "INS" || c == "PROBE" || c == "BUSY") {
+                U64 key = rdU(is);
+                std::cout.flush();
+                pid_t pid = fork();
+                if (pid == 0) {
+                    fclose(stderr);
+                    if (c == "INS") { Move m(Square(1), Square(2), 0, 0); tt->insert(key, m, 1, 0, 1, 0); }
+                    else { TTEntry ent; tt->probe(key, ent); }
+                    _exit(0);
+                }
+                int st = 0; waitpid(pid, &st, 0);
+                sig = WIFSIGNALED(st) ? std::to_string(WTERMSIG(st)) : "0";
+            }
+            std::cout << "NULL " << hx(tt->tableSize) << " sig=" << sig << '\n';
+            continue;
+        }
+        if (c == "CLEAR") { tt->clear(); std::cout << stateLine(*tt) << '\n'; }
         else if (c == "GEN") { tt->nextGeneration(); std::cout << stateLine(*tt) << '\n'; }
         else if (c == "CONTEMPT") { tt->setWhiteContempt((int)rdS(is)); std::cout << stateLine(*tt) << '\n'; }
         else if (c == "TBON") {
